@@ -137,9 +137,13 @@ def build(ctx):
     wops = [k for k, nm in enumerate(c13.OPS) if nm.startswith(("push_back", "insert", "assign", "resize_value", "resize_aliasing"))]
     dsel = ("uint16le_char", "uint8be_uint8") if ctx.quick else ("uint8le_char", "uint16le_char", "uint8be_uint8", "uint32be_int8", "uint64le_char")
     for inst in [i for i in c13.insts() if i[0] in dsel]:
-        for std in (("17",) if ctx.quick else ("11", "17", "20")):
-            ud = ctx.lower("c13", c13.cpp([inst]), std=std, mode="checked")
+        for std in (("17", "20ce") if ctx.quick else ("11", "17", "20", "20ce")):
+            # "20ce": the constant-evaluation model (hgen.CE_FLAGS) of the C++20 path, where every <data> operation is constexpr
+            ce = std.endswith("ce"); std = std.replace("ce", "")
+            if ce and ctx.quick and inst[0] != dsel[0]: continue
+            ud = ctx.lower("c13_consteval" if ce else "c13", c13.cpp([inst]), std=std, mode="checked", extra=hgen.CE_FLAGS if ce else ())
             text = c13.harness(ud, inst, 4, True)
+            if ce: std = std + "_consteval"
             for k in wops:
                 hs.append(P.Harness("dataop_%s_op%02d_%s_cxx%s" % (inst[0], k, c13.OPS[k], std), text, [ud], unwind=7, cap=ctx.q(600, 1200), defines=["VERIF_WHICH=%d" % k],
                                     desc="<data> %s (%s length, %s): %s writes exactly the length prefix and payload of the vector model, nothing else" % (inst[1], inst[2], "BE" if inst[5] else "LE", c13.OPS[k]),
